@@ -14,4 +14,5 @@ def P(name, pkg, race=False, run=None, quick=1500, thorough=14400, tiers=None, a
 
 PROPS = {
     "C01": {"level": "exploration", "parts": [P("main", "c01", run="^TestC01$")]},
+    "C14": {"level": "exploration", "parts": [P("main", "c14", run="^TestC14$")]},
 }
